@@ -119,10 +119,10 @@ theorem C04_statement_current (H : Bytes → Nat) (prog : List MemoFn)
 
 /-! #### the `#[memo]` functions of this repository (regenerated by T4 on every run) -/
 
-/-- The key the model computes (real `DefaultHasher` values of the signature texts from the table,
-the fold done in Lean) is the key the harness computed in Rust, for every site.  Kernel evaluation. -/
+/-- The key the model computes (from the real `DefaultHasher` value of the signature text; site text
+and fold done in Lean) is the key the harness computed in Rust, for every site.  Kernel evaluation. -/
 theorem C04_repo_keys_consistent :
-    keysConsistent repoHash repoSites = true ∧ keysConsistent harnessHash harnessSites = true := by
+    keysConsistent repoSites = true ∧ keysConsistent harnessSites = true := by
   decide +kernel
 
 /-- **No two `#[memo]` functions that can meet in one database have the same key** — on the real
